@@ -1123,7 +1123,9 @@ META = dict(
         "byte preservation, the /output node and the decoded content of every npy/fits file (which carries the "
         "simulation number) are compared with the model and judged against the specification inside Coq."),
     level_note=(
-        "Trusted: Coq kernel + vm_compute; translator/c19.py; the correspondence harness and its wrappers (frozen "
+        "Trusted: Coq kernel + vm_compute; translator/c19.py (a symbolic reader: locals substituted, private helpers "
+        "followed, path conditions as signed atoms - it extracts only the flags / tables the theorems use and fails "
+        "closed; layout, local names and message texts are not read); the correspondence harness and its wrappers (frozen "
         "datetime, gated Path.mkdir, pre-population after create_output_folder, one pipeline object per simulation). "
         "Not carried by the theorems: atomicity of os.mkdir, the file codecs (numpy, astropy, PIL, pandas), xarray's "
         "construction of the /output node, dask scheduling (for a parallel observation that fails, which other "
